@@ -42,7 +42,11 @@ def one(arg):
 
 def main():
     seeds = [int(x) for x in sys.argv[1:]] or [1]
-    jobs = [(d, s) for d in sorted(glob.glob(os.path.join(VERIF, "seeded", "*"))) for s in seeds]
+    only = os.environ.get("SEED_MATRIX_ONLY")          # e.g. "H,I,F,G": restrict to some batches
+    dirs = sorted(glob.glob(os.path.join(VERIF, "seeded", "*")))
+    if only:
+        dirs = [d for d in dirs if d.rsplit("-", 1)[-1] in only.split(",")]
+    jobs = [(d, s) for d in dirs for s in seeds]
     res = {}
     with ThreadPoolExecutor(max_workers=4) as ex:
         for name, seed, rc in ex.map(one, jobs):
